@@ -431,6 +431,34 @@ def lifecycle_cases(sizes=(2, 3)):
     return out
 
 
+def last_element_cases():
+    """every command that can take the LAST element out of a collection, on collections of one element (also the empty string as element / field /
+    value / member, also with the member already present in the destination, also the same key twice, also inside MULTI): afterwards all views of
+    the key space are asked - the key must be gone for each of them, and a no-op removal must leave the collection and report 0"""
+    E = b''
+    probes = [[b'exists', b'k'], [b'type', b'k'], [b'dbsize'], [b'keys', b'*'], [b'scan', b'0'], [b'exists', b'd'], [b'type', b'd'], [b'rpush', b'k', b'x'], [b'type', b'k']]
+    groups = []
+    for el in (b'a', E):
+        groups.append(([[b'hset', b'k', b'f', el]], [[b'hdel', b'k', b'f'], [b'hdel', b'k', b'nofield'], [b'hdel', b'k', b'nofield', b'f'], [b'hdel', b'k', b'f', b'f']]))
+        groups.append(([[b'hset', b'k', el, b'v']], [[b'hdel', b'k', el], [b'hdel', b'k', b'zz', el]]))
+        groups.append(([[b'hset', b'k', el, el]], [[b'hdel', b'k', el]]))
+        groups.append(([[b'sadd', b'k', el]], [[b'srem', b'k', el], [b'srem', b'k', b'zz', el], [b'spop', b'k'], [b'spop', b'k', b'1'], [b'spop', b'k', b'5'], [b'smove', b'k', b'd', el],
+                                                [b'smove', b'k', b'k', el], [b'sdiffstore', b'k', b'k', b'k'], [b'sinterstore', b'k', b'k', b'nokey'], [b'sdiffstore', b'd', b'k', b'k']]))
+        groups.append(([[b'sadd', b'k', el], [b'sadd', b'd', el]], [[b'smove', b'k', b'd', el], [b'smove', b'd', b'k', el], [b'sdiffstore', b'k', b'k', b'd'], [b'sinterstore', b'd', b'd', b'nokey']]))
+        groups.append(([[b'sadd', b'k', el], [b'sadd', b'd', b'other']], [[b'smove', b'k', b'd', el], [b'smove', b'k', b'd', b'other'], [b'smove', b'd', b'k', b'other']]))
+        groups.append(([[b'rpush', b'k', el]], [[b'lpop', b'k'], [b'rpop', b'k'], [b'lpop', b'k', b'1'], [b'rpop', b'k', b'9'], [b'lrem', b'k', b'0', el], [b'lrem', b'k', b'-1', el],
+                                                 [b'ltrim', b'k', b'1', b'-1'], [b'ltrim', b'k', b'5', b'2'], [b'rpoplpush', b'k', b'd'], [b'lmove', b'k', b'd', b'left', b'right'],
+                                                 [b'rpoplpush', b'k', b'k'], [b'blpop', b'k', b'0'], [b'brpop', b'nolist', b'k', b'1'], [b'brpoplpush', b'k', b'd', b'0'], [b'lrem', b'k', b'0', b'zz']]))
+        groups.append(([[b'zadd', b'k', b'1', el]], [[b'zrem', b'k', el], [b'zrem', b'k', b'zz', el], [b'zremrangebyrank', b'k', b'0', b'-1'], [b'zremrangebyscore', b'k', b'-inf', b'+inf'],
+                                                     [b'zremrangebylex', b'k', b'-', b'+'], [b'zremrangebyscore', b'k', b'(1', b'5'], [b'zinterstore', b'k', b'2', b'k', b'nokey'],
+                                                     [b'zunionstore', b'd', b'1', b'nokey']]))
+    for mk, removers in groups:
+        for rm in removers:
+            yield Always(mk + [rm] + probes)
+            yield Always(mk + [[b'multi'], rm, [b'exists', b'k'], [b'dbsize'], [b'exec']] + probes)
+            yield Always(mk + [[b'expire', b'k', b'100'], rm, [b'ttl', b'k']] + probes)
+
+
 def lifecycle_name_cases():
     """one connection with a subscription HISTORY in which names coincide (a channel and a pattern spelled alike, a name subscribed twice, partly
     unsubscribed again) is closed / collected; the prober then publishes to every name: nothing of the dead connection may be left in either table"""
